@@ -145,3 +145,40 @@ func NilCheck(p *int) *int {
 	}
 	return p
 }
+
+// Regression guards for transfer rules whose weakening is sound but whose strengthening is not.
+func CommaOk(i any) *int {
+	p, _ := i.(*int)
+	return p
+}
+
+func AppendArg(s []int) []int { return append(s) }
+
+func AppendGrow(s []int) []int { return append(s, 1) }
+
+func MaybeCallee(b bool) *int {
+	if b {
+		return nil
+	}
+	return new(int)
+}
+
+func CallMaybe(b bool) *int { return MaybeCallee(b) }
+
+func CallMaybeIface(b bool) any { return MaybeCallee(b) }
+
+func LoadPtr(pp **int) *int { return *pp }
+
+func MapElem(m map[int]*int) *int { return m[1] }
+
+func PhiJoin(b bool, p *int) *int {
+	q := new(int)
+	if b {
+		q = p
+	}
+	return q
+}
+
+func SliceTail(s []int, n int) []int { return s[n:] }
+
+func AssertIface(i any) error { return i.(error) }
